@@ -104,7 +104,7 @@ def run(ctx):
     ctx.exhaustive = True
 
     # ---------------- conformance: advisories and version ----------------
-    n = 120 if q else 1500
+    n = 100 if q else 1500
     traces = ctx.impl("harness/storage_more_driver.py", ["--profile", "adv", "--n", n, "--events", 30 if q else 45])
     for tr in traces:
         evs = tr["events"]
@@ -127,7 +127,7 @@ def run(ctx):
     ctx.notes.append("adv events: %s" % json.dumps(kinds, sort_keys=True))
 
     # ---------------- conformance: crawlers ----------------
-    n = 100 if q else 1200
+    n = 60 if q else 1200
     traces = ctx.impl("harness/storage_more_driver.py", ["--profile", "crawl", "--n", n, "--events", 30 if q else 40])
     kinds = {}
     for tr in traces:
